@@ -17,7 +17,7 @@ from expr_common import (boundary_envs, children, coq_outcome, enc, fl, model_ch
 import c04_gen as G
 
 COQ_FILES = ['Lib/Str.v', 'Expr/StrOps.v', 'Expr/Date.v', 'Expr/Syntax.v', 'Expr/Funcs.v', 'Expr/Eval.v', 'Expr/Check.v',
-             'C04/Proofs.v', 'C04/Props.v']
+             'C04/Proofs.v', 'C04/NameCase.v', 'C04/Props.v']
 IMPL = os.path.join(os.path.dirname(os.path.abspath(__file__)), 'impl_c04.py')
 
 
@@ -390,7 +390,7 @@ def main(tier):
         head = [t for t in small if tree_size(t) <= 2]
         rest = [t for t in small if tree_size(t) > 2]
         small_sel = head + rnd.sample(rest, 3000)
-        corr = [((i * 5 + i // 7) % nb, t) for i, t in enumerate(small_sel)]
+        corr = [((i * 5 + i // 7 + d) % nb, t) for i, t in enumerate(small_sel) for d in (0, 3)]
     else:
         corr = [(ei, t) for t in small for ei in range(nb)]
     fam = G.comprehension_family()
@@ -471,6 +471,9 @@ def main(tier):
         if inst.get('trees') and not sig:
             case, shrunk_from = shrink_law(inst, all_envs[inst['env']], case)
         case['prelude'] = prelude_for(case['exprs'], inst['env'], all_jobs)
+        if shrunk_from:
+            pre = case['prelude']
+            o = run_impl(IMPL, {'envs': [case['env']], 'jobs': [[0, x] for x in pre + case['exprs']]})['results'][len(pre):]
         run.violation('law', {'kind': 'counterexample', 'case': case, 'observed': o, 'expected': msg,
                               'obligation': 'c04 law "%s" on the implementation' % inst['law'], 'shrunk_from': shrunk_from,
                               'n_failing_instances': sum(1 for i2, _, _ in law_fail if i2['law'] == inst['law']), 'broken': broken},
@@ -521,7 +524,7 @@ def main(tier):
     run.cov.update({
         'evaluations': len(corr_jobs) + len(law_jobs) + 2 * len(py_jobs),
         'distinct_nontrivial': nontrivial,
-        'rule': 'correspondence: all expressions of <= 3 nodes over a 14-leaf alphabet (quick: all of <= 2 nodes + 3000 sampled of 3; '
+        'rule': 'correspondence: all expressions of <= 3 nodes over a 14-leaf alphabet (quick: all of <= 2 nodes + 3000 sampled of 3, each on 2 boundary transactions; '
                 'thorough: all x 6 boundary transactions), comprehension/scoping templates, random typed trees of depth <= 6, on boundary '
                 'transactions (zero/negative/large amount, month/year ends, leap day, empty description, missing date, custom fields, '
                 'source) x 0-2 supplemental tables of 0-3 rows and random environments; non-trivial = distinct expression texts evaluated '
